@@ -193,7 +193,9 @@ func c07Final(e *driver.Env) {
 	var errIDs []int
 	if s.Err != nil {
 		for _, o := range s.Err.Got {
-			errIDs = append(errIDs, errID(o.V))
+			if id := errID(o.V); !s.afterCancelNote(id, o.Seq) {
+				errIDs = append(errIDs, id)
+			}
 		}
 	}
 	if !gen {
